@@ -15,6 +15,14 @@ use crate::ast::NestedMeta;
 use crate::util::path_to_string;
 use crate::{Error, Result};
 
+/// Look through the invisible groups that `macro_rules!` substitution puts around a fragment.
+fn without_groups(mut expr: &Expr) -> &Expr {
+    while let Expr::Group(group) = expr {
+        expr = &group.expr;
+    }
+    expr
+}
+
 /// Create an instance from an item in an attribute declaration.
 ///
 /// # Implementing `FromMeta`
@@ -140,7 +148,8 @@ pub trait FromMeta: Sized {
                 expr: ref operand,
                 ..
             }) if matches!(
-                **operand,
+                // the literal may be a `macro_rules!` fragment (`-$n`): invisible groups are transparent
+                without_groups(operand),
                 Expr::Lit(syn::ExprLit {
                     lit: Lit::Int(_) | Lit::Float(_),
                     ..
